@@ -137,7 +137,7 @@ Proof.
     destruct (s2r_spec nr nl tbl Ndr Hlen Hnew d HdN) as [_ [B1 _]].
     destruct (r2s_spec nr nl tbl Ndr Hlen Hnew d HdN) as [B2 _].
     unfold nr, names_of in B2. rewrite map_length in B2. fold D in B2.
-    repeat split; auto. unfold D. rewrite <- Hlen_r. exact B1. }
+    rewrite Hlen_r in B1. fold D in B1. repeat split; auto. }
   assert (Hshape' : src_shape r = src_shape (TAccess l tbl')).
   { cbn [src_shape] in *. unfold map_shape_to_requested at 1. rewrite Fr, Hshape.
     unfold map_shape_to_requested.
@@ -157,10 +157,10 @@ Proof.
   unfold idx, map_dimensions_to_source. rewrite Fs.
   apply nth_ext with (d := 0) (d' := 0).
   - rewrite map_length, L1. lia.
-  - rewrite Li'. intros d Hd. destruct (Hinvs d Hd) as [_ [I2 [B1 B2]]].
+  - rewrite Li'. intros d Hd. destruct (Hinvs d Hd) as [I1 [_ [B1 B2]]].
     rewrite (nth_map_in _ _ _ _ 0%nat) by lia.
     rewrite (nth_map_in _ _ _ _ 0%nat) by (rewrite L2; lia).
-    rewrite I2. reflexivity.
+    rewrite I1. reflexivity.
 Qed.
 
 Theorem similarity_sym (l r : tsrc A) :
@@ -176,3 +176,55 @@ Proof.
 Qed.
 
 End Symmetric.
+
+(* "similar exactly when SOME reordering of r's dimensions makes the two equal": any accepted
+   ordering that achieves equality is necessarily l's name order *)
+Section SomeReordering.
+Context {A : Type}.
+Variable eqb : A -> A -> bool.
+
+Lemma access_names (s : tsrc A) req tbl :
+  NoDup (names_of (src_shape s)) -> length req = length (src_shape s) ->
+  dm_new (names_of (src_shape s)) req = Some tbl ->
+  names_of (src_shape (TAccess s tbl)) = req.
+Proof.
+  intros Hnd Hlen Hnew. cbn [src_shape]. rewrite names_requested.
+  assert (HlenN : length req = length (names_of (src_shape s))) by (unfold names_of; rewrite map_length; exact Hlen).
+  pose proof (r2s_length _ _ _ Hnew) as L.
+  apply nth_ext with (d := 0%nat) (d' := 0%nat).
+  - rewrite map_length, L. lia.
+  - rewrite map_length, L. intros d Hd.
+    rewrite (nth_map_in _ _ _ _ 0%nat) by lia.
+    destruct (r2s_spec _ _ _ Hnd HlenN Hnew d Hd) as [_ E]. exact E.
+Qed.
+
+Theorem similarity_iff_some_reordering (l r : tsrc A) :
+  NoDup (names_of (src_shape r)) ->
+  (tensor_similarity eqb l r = true <->
+   exists dims tbl, length dims = length (src_shape r) /\
+                    dm_new (names_of (src_shape r)) dims = Some tbl /\
+                    tensor_equality eqb l (TAccess r tbl) = true).
+Proof.
+  intros Hnd. rewrite similarity_iff. split.
+  - intros [tbl [Hnew Heq]]. exists (names_of (src_shape l)), tbl. repeat split; auto.
+    pose proof (dm_new_length _ _ _ Hnew) as L.
+    assert (Hs : src_shape l = src_shape (TAccess r tbl)).
+    { unfold tensor_equality in Heq. apply andb_true_iff in Heq. destruct Heq as [Hs _].
+      revert Hs. generalize (src_shape l) (src_shape (TAccess r tbl)).
+      induction s as [|[n1 l1] s IH]; intros [|[n2 l2] s'] H; cbn [shape_eqb] in H; try discriminate; [reflexivity|].
+      apply andb_true_iff in H. destruct H as [H1 H3]. apply andb_true_iff in H1. destruct H1 as [H1 H2].
+      apply Nat.eqb_eq in H1. apply N.eqb_eq in H2. subst. f_equal. apply IH. exact H3. }
+    rewrite Hs. cbn [src_shape]. unfold map_shape_to_requested, dm_r2s, names_of.
+    rewrite !map_length. unfold names_of in L. rewrite map_length in L. exact L.
+  - intros [dims [tbl [Hlen [Hnew Heq]]]].
+    assert (Hd : dims = names_of (src_shape l)).
+    { rewrite <- (access_names r dims tbl Hnd Hlen Hnew).
+      unfold tensor_equality in Heq. apply andb_true_iff in Heq. destruct Heq as [Hs _].
+      f_equal. symmetry. revert Hs. generalize (src_shape l) (src_shape (TAccess r tbl)).
+      induction s as [|[n1 l1] s IH]; intros [|[n2 l2] s'] H; cbn [shape_eqb] in H; try discriminate; [reflexivity|].
+      apply andb_true_iff in H. destruct H as [H1 H3]. apply andb_true_iff in H1. destruct H1 as [H1 H2].
+      apply Nat.eqb_eq in H1. apply N.eqb_eq in H2. subst. f_equal. apply IH. exact H3. }
+    subst dims. exists tbl. auto.
+Qed.
+
+End SomeReordering.
